@@ -521,7 +521,9 @@ func (x *Unit) verifyOnce() (res *UnitResult) {
 				cond := env.boolOf(en.Expr)
 				x.oblige(panicking, "panicpost", en.Label, en.Tags, cond, en.Src, x.FU.Body)
 			}
-			if c.NoPanic {
+			// callers assume a panic edge only for callees declared may_panic / interferes: every other contract is
+			// checked for "no panic escapes", declared or not
+			if c.NoPanic || (!c.MayPanic && !c.Interferes && !c.NoCheck && !c.Pure && len(c.Panics) == 0) {
 				var sites []string
 				for k := range x.panicSites {
 					sites = append(sites, k)
